@@ -22,8 +22,8 @@
 (* Part 2: a streaming reader as a state machine (one action per part, in   *)
 (*   body order, early rejection at the limits) that mode M checks against  *)
 (*   the declarative reference for every part order; the reader of today's  *)
-(*   code (no file count, a byte budget maxSize*maxFiles on the whole       *)
-(*   stream) is the named deviation / negative control.                     *)
+(*   code (a byte budget maxSize*maxFiles on the whole stream) is the named *)
+(*   deviation / negative control.                                          *)
 (* The bounded case domain for modes M and G is in MC_Upload.tla.           *)
 (***************************************************************************)
 EXTENDS JsonTree, FiniteSets
@@ -88,14 +88,25 @@ BindPaths(reqs, ops, paths, k, f) ==
        IF PathOk(ops, p)
        THEN BindPaths([i \in 1..Len(reqs) |-> IF i = PathReq(ops, p) THEN Put(reqs[i], p, PathFrom(ops), f) ELSE reqs[i]], ops, paths, k + 1, f)
        ELSE BindPaths(reqs, ops, paths, k + 1, f)
-RECURSIVE BindEntries(_, _, _)
-BindEntries(reqs, c, e) ==
+\* Several file parts may carry the same field name.  Every map entry needs *a* file part of its name (HasFile);
+\* a second part of another name never stands in for a missing one (Causes: "missing-file" is per entry name).
+\* The multipart request specification does not say which of several same-named parts an entry denotes, so a
+\* binding is correct for any *pick*: a function from map entries to body positions that gives every entry
+\* whose name occurs one of the parts of that name (0 = the name does not occur); all paths of an entry
+\* receive the picked part.
+Cands(c, e) == LET S == {i \in FileParts(c.body) : c.body[i].name = c.map.entries[e].name} IN IF S = {} THEN {0} ELSE S
+Picks(c) == {f \in [1..Len(c.map.entries) -> 0..Len(c.body)] : \A e \in 1..Len(c.map.entries) : f[e] \in Cands(c, e)}
+RECURSIVE BindEntries(_, _, _, _)
+BindEntries(reqs, c, e, pick) ==
   IF e > Len(c.map.entries) THEN reqs
   ELSE LET en == c.map.entries[e] IN
-       IF HasFile(c.body, en.name)
-       THEN BindEntries(BindPaths(reqs, c.ops, en.paths, 1, JFile(en.name, FileOf(c.body, en.name).size)), c, e + 1)
-       ELSE BindEntries(reqs, c, e + 1)
-Bound(c) == BindEntries(c.ops.reqs, c, 1)
+       IF pick[e] # 0
+       THEN BindEntries(BindPaths(reqs, c.ops, en.paths, 1, JFile(en.name, c.body[pick[e]].size)), c, e + 1, pick)
+       ELSE BindEntries(reqs, c, e + 1, pick)
+BoundWith(c, pick) == BindEntries(c.ops.reqs, c, 1, pick)
+\* the binding that takes the first part of each name (what a reader that keeps the first one produces)
+FirstPick(c) == [e \in 1..Len(c.map.entries) |-> LET S == Cands(c, e) IN CHOOSE i \in S : \A j \in S : i <= j]
+Bound(c) == BoundWith(c, FirstPick(c))
 \* number of uploads attached to request i = number of (entry, path) pairs bound into it
 NumBound(c, i) ==
   Cardinality({<<e, k>> \in (1..Len(c.map.entries)) \X (1..4) :
@@ -108,21 +119,23 @@ Conforms(c, st) == IF Causes(c) # {} THEN st = "error" ELSE IF Optional(c) # {} 
 \* an observed outcome  [k |-> "ok" | "error" | "panic", shape, reqs |-> <<[vars, nup]>>]
 ObsBound(c, out) ==
   /\ out.k = "ok" /\ out.shape = c.ops.kind /\ Len(out.reqs) = Len(c.ops.reqs)
-  /\ \A i \in 1..Len(out.reqs) : JEq(Bound(c)[i], out.reqs[i].vars) /\ out.reqs[i].nup = NumBound(c, i)
+  /\ \E pick \in Picks(c) : \A i \in 1..Len(out.reqs) : JEq(BoundWith(c, pick)[i], out.reqs[i].vars)
+  /\ \A i \in 1..Len(out.reqs) : out.reqs[i].nup = NumBound(c, i)
 
 \* Named deviations of today's reader (known_findings/C24.json):
-\*  DevNoFileCount  -- the number of files is never counted;
+\*  (DevNoFileCount -- the number of files was never counted -- was fixed in /repo and its switch deleted;
+\*   today's reader counts every file part, mapped or not)
 \*  DevStreamBudget -- when both limits are configured the *whole stream* (all parts, headers, boundaries)
 \*                     is limited to maxSize * maxFiles bytes, so requests within both limits are rejected.
 DevRejects(c, streamLen) ==
   \/ Causes(c) \cap {"no-operations", "no-map", "bad-map", "missing-file"} # {}
   \/ c.opts.maxSize > 0 /\ \E i \in FileParts(c.body) : c.body[i].size > c.opts.maxSize
+  \/ c.opts.maxFiles > 0 /\ Cardinality(FileParts(c.body)) > c.opts.maxFiles
   \/ c.opts.maxSize > 0 /\ c.opts.maxFiles > 0 /\ streamLen > c.opts.maxSize * c.opts.maxFiles
 Judge(c, out, streamLen) ==
   IF out.k = "ok" THEN
        IF ~ObsBound(c, out) THEN "violation"
        ELSE IF Conforms(c, "ok") THEN "ok"
-       ELSE IF Causes(c) = {"too-many"} /\ ~DevRejects(c, streamLen) THEN "known:DevNoFileCount"
        ELSE "violation"
   ELSE IF out.k = "error" THEN
        IF Conforms(c, "error") THEN "ok"
@@ -157,11 +170,12 @@ ReadFile == /\ status = "reading" /\ pos <= Len(cs.body) /\ Cur.t = "file"
             /\ IF cs.opts.maxSize > 0 /\ Cur.size > cs.opts.maxSize THEN status' = "error" /\ kept' = kept
                ELSE IF cs.opts.maxFiles > 0 /\ Cardinality(kept) + 1 > cs.opts.maxFiles THEN status' = "error" /\ kept' = kept
                ELSE status' = status /\ kept' = kept \cup {pos}
-\* today's reader: per-part size limit, no count, byte budget on the whole stream when both limits are set
+\* today's reader: per-part size limit, part count, and a byte budget on the whole stream when both limits are set
 ReadFileDev == /\ status = "reading" /\ pos <= Len(cs.body) /\ Cur.t = "file"
                /\ Advance /\ UNCHANGED <<gotOps, gotMap>>
                /\ kept' = kept \cup {pos}
                /\ status' = IF cs.opts.maxSize > 0 /\ Cur.size > cs.opts.maxSize THEN "error"
+                            ELSE IF cs.opts.maxFiles > 0 /\ Cardinality(kept) + 1 > cs.opts.maxFiles THEN "error"
                             ELSE IF cs.opts.maxSize > 0 /\ cs.opts.maxFiles > 0 /\ bytes' > cs.opts.maxSize * cs.opts.maxFiles THEN "error"
                             ELSE status
 Finish == /\ status = "reading" /\ pos > Len(cs.body)
